@@ -277,15 +277,35 @@ where
                 key,
                 in_flight,
             } => {
+                // If the inner call (or cloning its result) panics, free the key at once: the
+                // caller may catch the panic and keep this future, and `Drop` would come too late
+                // for the waiters and for new requests.
+                struct CancelOnUnwind<'a, K: Hash + Eq + Clone, Res: Clone, E: Clone> {
+                    in_flight: &'a InFlight<K, Res, E>,
+                    key: &'a mut Option<K>,
+                }
+                impl<K: Hash + Eq + Clone, Res: Clone, E: Clone> Drop for CancelOnUnwind<'_, K, Res, E> {
+                    fn drop(&mut self) {
+                        if std::thread::panicking() {
+                            if let Some(k) = self.key.take() {
+                                self.in_flight.cancel(&k);
+                            }
+                        }
+                    }
+                }
+                let guard = CancelOnUnwind { in_flight, key };
+
                 match future.as_mut().poll(cx) {
                     Poll::Ready(result) => {
                         // Notify all waiters
-                        if let Some(k) = key.take() {
+                        if guard.key.is_some() {
                             let result_clone = match &result {
                                 Ok(res) => Ok(res.clone()),
                                 Err(e) => Err(e.clone()),
                             };
-                            in_flight.complete(&k, result_clone);
+                            if let Some(k) = guard.key.take() {
+                                guard.in_flight.complete(&k, result_clone);
+                            }
                         }
                         Poll::Ready(result.map_err(CoalesceError::Service))
                     }
